@@ -133,6 +133,10 @@ func (m *Migrator) Migrate(
 		if err != nil {
 			return nil, fmt.Errorf("computing oldest block kept: %w", err)
 		}
+		if floor == 0 {
+			// Every block is inside the retention window — nothing to prune yet.
+			return nil, nil
+		}
 		m.oldestBlockKept = floor
 		m.floorPinned = true
 	}
